@@ -903,6 +903,14 @@ pub fn check_main(cc: &CheckCfg) -> i32 {
             "x86-64 host: NEON kernels not executed"
         ]
     });
+    let mut evidence = evidence;
+    if let Ok(p) = std::env::var("RSIM_EXTRA_EVIDENCE") {
+        if let Ok(t) = std::fs::read_to_string(&p) {
+            if let Ok(v) = serde_json::from_str::<serde_json::Value>(&t) {
+                evidence["coverage"]["miri_layer"] = v;
+            }
+        }
+    }
     if cc.write_evidence {
         let dir = verif_root().join("evidence");
         let _ = std::fs::create_dir_all(&dir);
